@@ -18,9 +18,12 @@ def main():
     env = dict(os.environ, VERIF_REPO=scratch, VERIF_BUILD="/tmp/seedbuild_%d" % os.getpid(), VERIF_EVIDENCE_DIR="/tmp/seedev_%d" % os.getpid())
     for n in names:
         pdir = os.path.join(V, "seeded", n)
-        r = sh("git -C %s checkout -- . && (git -C %s apply %s/patch.diff || git -C %s apply --3way %s/patch.diff)" % (scratch, scratch, pdir, scratch, pdir))
+        r = sh("git -C %s reset -q --hard && git -C %s apply %s/patch.diff" % (scratch, scratch, pdir))
         if r.returncode != 0:
-            results[n] = dict(error="patch does not apply to HEAD " + sh("git -C /repo rev-parse --short HEAD").stdout.strip()); continue
+            results[n] = dict(error="patch does not apply to HEAD " + sh("git -C /repo rev-parse --short HEAD").stdout.strip())
+            json.dump(results, open(resf, "w"), indent=1)
+            print(n, "patch does not apply", flush=True)
+            continue
         entry = dict(repo_head=sh("git -C /repo rev-parse --short HEAD").stdout.strip(), checks={})
         for pid in [n[:3]] + ALSO.get(n, []):
             if pid not in claimed:
